@@ -182,7 +182,13 @@ fn call_int(args: &[Object]) -> Result<Object, Error> {
         }
     };
 
-    Ok(Object::int(result))
+    match Object::checked_int(result) {
+        Some(obj) => Ok(obj),
+        None => Err(Error::ArgumentError(format!(
+            "{} past niet in een integer",
+            args[0]
+        ))),
+    }
 }
 
 /// Casts the given object to an object of type float
